@@ -18,8 +18,9 @@
     * freedom from data races / shared mutable state under concurrent use is a property of the Go
       runtime execution that no Gallina model exhibits; it is covered by the harness only
       (goroutines + a -race build, see notes/C20.md);
-    * [..._partial] theorems carry a premise about a function that is not modelled (the bucket
-      effect of QualifyObjects); evalReferences is proved on a model of its closure [visit] under
+    * [..._partial] theorems carry a premise about a function that is not modelled; the bucket
+      effect of QualifyObjects is concrete since round 5 (Det/QualifyModel.v) and its premise is
+      discharged by [C20_qualify_map_order_irrelevant]; evalReferences is proved on a model of its closure [visit] under
       a locality premise on the (unmodelled) HCL expression evaluator; that the error STATUS is
       also independent of the order in which edges() lists references is not proved (the value is);
     * the models of State.EvalOptions, Resource.as and registry.lookup follow the tree WITH the
@@ -27,7 +28,11 @@
     * [C20_decl_order_partial] covers the DetachCycles stage only (no premise: sortMap's cycle
       detection is proved order-independent); that SortChanges emits a permutation respecting
       dependsOn is C04's theorem, and
-      "the resulting schema is the same" is checked on the real SQLite engine by the harness. *)
+      "the resulting schema is the same" is checked on the real SQLite engine by the harness;
+    * "the output of a differ / planner does not depend on what other differs of the process did
+      before" (round 5) is a property of Go package state: the finite obligation
+      [C20_pkgstate_covered] (generated census of package-level mutable variables against the table
+      of variables the `history` stage exercises) + the harness; not a theorem about the differs. *)
 From Coq Require Import List Bool Arith NArith Permutation String Relations.
 From Coq Require Sorting.Sorted.
 From Atlas Require Import Base.Bytes Plan.SortModel Dir.DirModel.
